@@ -215,6 +215,10 @@ func build(cr caseRec) (mods map[string]string, pl placement, e expr, ok bool) {
 	case "path":
 		e = paths[cr.Expr]
 		stmt = fmt.Sprintf("leaf lr { type leafref { path %q; } }", e.Text)
+	case "upath":
+		// the leafref is a member of a union, behind a member that accepts every string
+		e = paths[cr.Expr]
+		stmt = fmt.Sprintf("leaf lr { type union { type string; type int8; type leafref { path %q; } } }", e.Text)
 	}
 	if cr.ConfigFalse {
 		// the node that carries the statement is state data: its expressions are compiled all the same
@@ -338,6 +342,9 @@ func check(cr caseRec) (vs []engine.Violation, outcome string) {
 		// first the statement written in b itself
 		vs = append(vs, checkNode(d, "/own", cr.OwnKind, own, tableB, "urn:b", false, cls+":own-statement", mk2(cr, mods))...)
 	}
+	if cr.Kind == "upath" {
+		return vs, "ok" // (only the verdict is checked: the member's machine is not in the dump)
+	}
 	vs = append(vs, checkNode(d, pl.Node, cr.Kind, e, table, pl.EndsIn, pl.Unspec, cr.Placement+":"+cr.Kind, mk2(cr, mods))...)
 	return vs, "ok"
 }
@@ -419,7 +426,7 @@ func pfxClass(e expr) string {
 
 func run(c *engine.Ctx) {
 	for _, pl := range placements() {
-		for _, kind := range []string{"must", "must2", "when", "path", "rawwhen"} {
+		for _, kind := range []string{"must", "must2", "when", "path", "upath", "rawwhen"} {
 			if strings.HasPrefix(pl.Name, "when-on-") != (kind == "rawwhen") {
 				continue
 			}
@@ -427,10 +434,10 @@ func run(c *engine.Ctx) {
 				continue
 			}
 			n := len(exprs)
-			if kind == "path" {
+			if kind == "path" || kind == "upath" {
 				n = len(paths)
 			}
-			if pl.Name == "typedef-of-a-used-from-b" && kind != "path" || pl.Name == "deviation-from-b" && kind == "when" || pl.Name == "refine-must-in-b" && kind != "must" && kind != "must2" {
+			if pl.Name == "typedef-of-a-used-from-b" && kind != "path" && kind != "upath" || pl.Name == "deviation-from-b" && kind == "when" || pl.Name == "refine-must-in-b" && kind != "must" && kind != "must2" {
 				continue
 			}
 			for i := 0; i < n; i++ {
